@@ -1195,6 +1195,7 @@ def check_memo_numeric_keys(ctx, rep, rule: str):
     for c in memo:
         cons = cls_construct(ix, c.qualname, "memo-key:numeric-literals")
         ok = None
+        ok_types = set()
         for m in c.methods.values():
             for st in ast.walk(m.node):
                 if isinstance(st, ast.If):
@@ -1204,8 +1205,16 @@ def check_memo_numeric_keys(ctx, rep, rule: str):
                         rets = [r for b in st.body for r in ast.walk(b) if isinstance(r, ast.Return) and r.value is not None]
                         if any(any(isinstance(k, ast.Call) and isinstance(k.func, ast.Name) and k.func.id in ("type", "repr", "str") for k in ast.walk(r.value)) for r in rets):
                             ok = m
+                            ok_types = tys
         if ok is not None:
             rep.ok(rule, cons, f"{ok.name} keys numbers by type and repr", ok.loc())
+            # ... numbers of EVERY numeric type: numpy scalars, Fraction, Decimal and complex numbers are arguments
+            # the builder API and Q-syntax accept, and equal ones hash alike
+            cons2 = cls_construct(ix, c.qualname, "memo-key:numeric-types")
+            if ok_types & {"Number", "Real", "Integral", "Complex"}:
+                rep.ok(rule, cons2, f"the type test is {sorted(ok_types)}", ok.loc())
+            else:
+                rep.violation(rule, cons2, f"only {sorted(ok_types)} are keyed by type and spelling: `m numpy.int64(2)` and `m numpy.float32(2.0)` (or `Pw r[0] 1` and `Pw r[0] (1+0j)`) are one dictionary key, so the statement built first -- anywhere in the program, also in a macro that is never called -- supplies the argument of the other, which is not even validated against its parameter", ok.loc(), witness="build(['circuit', ['register', 'q', 2], ['macro', 'other', ['sequential_block', ['gate', 'm', numpy.float32(2.0)]]], ['gate', 'm', numpy.int64(2)]])")
         else:
             rep.violation(rule, cons, "numeric arguments enter the memo key as raw values: `foo 1; foo 1.0` builds `foo 1` twice, `Rz q[0] -0.0` after `Rz q[0] 0.0` loses its sign, and generated text changes (`loop 2.0 {` where `loop 2 {` was written)", c.loc(), witness="register q[2]\nfoo 1\nfoo 1.0")
 
